@@ -146,6 +146,8 @@ def check(ctx):
             if fn.op in ("closure", "lam", "lambda"):
                 out = A.ev.call_term(fn, [Xs], f.state.fork(), M_GS, GS, r.self_term)
                 good = out is want_pred
+            elif fn is mk("attr", est, "predict"):
+                good = True     # the bound method itself: h(X) = est.predict(X)
             recv = c.args[0].args[0]
             if kind == "gamma":
                 okg = good and A.eq(recv, A.at(f, "self.constraints")) and term is c
@@ -401,19 +403,21 @@ def _r093_selection(ctx):
             uses_ow = contains(elt, lambda s_: s_.op == "attr" and s_.args[1] == "objective_weight")
             loss_ok = okr and (A.eq(elt, direct) or A.eq(elt, want))
             if not loss_ok and len(gens) == 1 and not gens[0][1]:
-                # the pairwise walk: for o, c in zip(self.objectives_, grid.columns) - objectives_ has exactly one record per
-                # grid column in column order (R09.2), so the pair (o, c) is (objectives_[i], grid.columns[i])
-                okz = A.eq(gens[0][0], A.at(e, "zip(self.objectives_, G.columns)", {"G": grid, "zip": glob("builtins.zip")}))
-                b = {"O": mk("sub", k, const(0)), "Cc": mk("sub", k, const(1))}
-                forms = [A.at(e, f"{w} * O + self.constraint_weight * self.gammas_[Cc].max()", b)
-                         for w in ("self.objective_weight", "(1.0 - self.constraint_weight)")]
-                loss_ok = okz and any(A.eq(elt, f_) for f_ in forms)
-                if not loss_ok:
-                    # for i, c in enumerate(grid.columns): the position indexes objectives_, the label indexes gammas_
-                    oke = A.eq(gens[0][0], A.at(e, "enumerate(G.columns)", {"G": grid, "enumerate": glob("builtins.enumerate")}))
-                    forms = [A.at(e, f"{w} * self.objectives_[O] + self.constraint_weight * self.gammas_[Cc].max()", b)
+                # other walks over the same positions: objectives_ has exactly one record per grid column in column order
+                # (R09.2), so each of these visits the pairs (objectives_[i], grid.columns[i]) in order
+                bi_ = {"G": grid, "zip": glob("builtins.zip"), "enumerate": glob("builtins.enumerate")}
+                k0, k1 = mk("sub", k, const(0)), mk("sub", k, const(1))
+                walks = [("zip(self.objectives_, G.columns)", "O0", "self.gammas_[O1]"),
+                         ("enumerate(G.columns)", "self.objectives_[O0]", "self.gammas_[O1]"),
+                         ("enumerate(self.objectives_)", "O1", "self.gammas_[G.columns[O0]]"),
+                         ("range(len(G.columns))", "self.objectives_[K]", "self.gammas_[G.columns[K]]")]
+                for it_src, obj_src, gam_src in walks:
+                    if not A.eq(gens[0][0], A.at(e, it_src, bi_)):
+                        continue
+                    b = {"O0": k0, "O1": k1, "K": k, "G": grid}
+                    forms = [A.at(e, f"{w} * {obj_src} + self.constraint_weight * {gam_src}.max()", b)
                              for w in ("self.objective_weight", "(1.0 - self.constraint_weight)")]
-                    loss_ok = oke and any(A.eq(elt, f_) for f_ in forms)
+                    loss_ok = loss_ok or any(A.eq(elt, f_) for f_ in forms)
     np_ok = v.op == "call" and v.args[0] is glob("numpy.argmin")
     ctx.ob("R09.3", fq, e.node, ok or np_ok, "best_idx_ is the first index attaining the minimum loss", construct="first argmin")
     ctx.ob("R09.3", fq, e.node, loss_ok, "loss(i) = (1 - constraint_weight)*objectives_[i] + constraint_weight*max(gammas_[grid "
